@@ -19,7 +19,7 @@ EXPLANATION = ("T1 proves, for every input of each event handler, the complete f
                "at any time), exact in-order emission of SendHttp(*Data) for streamed bodies incl. addon transformations, and store_streamed_bodies; "
                "parse_size is proved against the size grammar. What the peer finally receives on the wire is the composition with the HTTP/1 "
                "writers (C01) and h11, which is only checked bounded here (T2: sizes around the thresholds x all chunkings x CL/chunked x both "
-               "directions x option combinations x addon stream callables) - that composition has one recorded defect (KF-C07-1).")
+               "directions x option combinations x addon stream callables) - a defect found there (KF-C07-1, empty chunk framed as the chunked terminator) was repaired in /repo by fix 62e806aee.")
 ASSUMPTIONS = [
     "body_size_limit / stream_large_bodies are None or strings accepted by parse_size with a non-negative value (Proxyserver.configure rejects "
     "anything parse_size rejects; negative sizes such as '-1' are accepted there but are outside this contract); inside the HttpStream "
